@@ -296,8 +296,11 @@ def values_harness(kind, mutual):
         errors = []
         push_exception_handler(lambda *a: errors.append(a), reraise_exceptions=False)
         try:
+            from traits.api import Expression
+            counter = [0]
+
             class A(HasTraits):
-                x = Float() if kind == "float" else Any()
+                x = Float() if kind == "float" else Expression("0") if kind == "expression" else Any()
                 xs = List(Float) if kind == "float" else List(Any)
 
             a, b = A(), A()
@@ -307,6 +310,12 @@ def values_harness(kind, mutual):
             a.on_trait_change(lambda: calls.__setitem__("a", calls["a"] + 1), "x")
             b.on_trait_change(lambda: calls.__setitem__("b", calls["b"] + 1), "x")
             mk = (lambda: float("nan")) if kind == "float" else Vec
+            if kind == "expression":
+                # a trait that stores the ORIGINAL value (the text) while validation yields something else (a code object)
+                def mk():
+                    counter[0] += 1
+                    return "1 + %d" % counter[0]
+            same = (lambda p, q: p is q) if kind != "expression" else (lambda p, q: p == q)
             v = mk()
             for step in range(3):
                 op = ex.choice("op%d" % step, 5)
@@ -316,7 +325,9 @@ def values_harness(kind, mutual):
                     if op == 0:
                         v = mk()
                         a.x = v
-                        ex.check(a.x is v and b.x is v, "both sides hold the very object that was assigned to the source")
+                        ex.check(same(a.x, v) and same(b.x, v), "both sides hold the very object that was assigned to the source")
+                        if kind == "expression":
+                            ex.check(eval(a.x_) == eval(v) and eval(b.x_) == eval(v), "... and the mapped shadow of both sides follows it")
                         ex.check(calls["a"] <= 1 and calls["b"] <= 1, "each side's handlers are notified at most once per change")
                     elif op == 1:
                         a.x = v                      # the same object again (NaN != NaN, yet nothing changed)
@@ -326,7 +337,7 @@ def values_harness(kind, mutual):
                         v = mk()
                         b.x = v
                         if mutual:
-                            ex.check(a.x is v and b.x is v, "both sides hold the very object that was assigned to the target (mutual link)")
+                            ex.check(same(a.x, v) and same(b.x, v), "both sides hold the very object that was assigned to the target (mutual link)")
                     elif op == 3:
                         w = mk()
                         a.xs.append(w)
@@ -419,10 +430,10 @@ def obligations(tier, build):
     obs.append(Obligation("unlink-inside-handler", unlink_inside_handler_harness,
                           bounds={"variants": ["scalar unlink", "list unlink", "list relink"], "list operations": 4, "mutual": "flag"},
                           leverage="choice feasibility only"))
-    for kind in ("float", "vector"):
+    for kind in ("float", "vector", "expression"):
         for mutual in (True, False):
             obs.append(Obligation("values/%s/%s" % (kind, "mutual" if mutual else "oneway"), values_harness(kind, mutual),
-                                  bounds={"value kind": "NaN floats" if kind == "float" else "array-like (== has no truth value)",
+                                  bounds={"value kind": "NaN floats" if kind == "float" else "Expression texts (the trait stores the original value)" if kind == "expression" else "array-like (== has no truth value)",
                                           "history length": 3}, leverage="choice feasibility only"))
     N = 2 if tier == "quick" else 4
     M = 2 if tier == "quick" else 3
